@@ -179,8 +179,8 @@ J gen_forward(uint64_t seed, const J &ov)
 			switch (r.range(0, 4)) {
 			case 0: op.set("name", d2); op.set("qtype", 2); break;
 			case 1: op.set("name", std::string("sub") + std::to_string(i) + "." + d2); op.set("qtype", 2); break;
-			case 2: op.set("name", std::string(r.chance(0.5) ? "ns." : "NS.") + d2); op.set("qtype", 1); break;
-			case 3: op.set("name", std::string(r.chance(0.5) ? "www." : "wWw.") + d2); op.set("qtype", 1); break;
+			case 2: op.set("name", std::string((const char *[]){"ns.", "NS.", "nS.", "Ns."}[r.range(0, 3)]) + d2); op.set("qtype", 1); break;
+			case 3: op.set("name", std::string((const char *[]){"www.", "wWw.", "WWW.", "Www.", "wwW."}[r.range(0, 4)]) + d2); op.set("qtype", 1); break;
 			default: op.set("name", std::string("a.b.c.") + d2); op.set("qtype", 2); break;
 			}
 		} else if (r.chance(0.12)) {
